@@ -82,3 +82,16 @@ pub fn price_conversion(
         .collect();
     (txns, ctx.metadata())
 }
+
+/// C12: does the report-side account lookup (`Settings::get_txn_account`, used by the balance
+/// kernel for the gap rows) know this account in this commodity?
+pub fn settings_knows_txn_account(
+    settings: &crate::kernel::Settings,
+    account: &str,
+    commodity: &str,
+) -> bool {
+    match settings.get_commodity(commodity) {
+        Ok(c) => settings.get_txn_account(account, c).is_ok(),
+        Err(_) => false,
+    }
+}
